@@ -132,6 +132,7 @@ func rulesC04(c *Ctx) {
 		"(round 2) (g) C04.depth: the verifier's depth bound covers every tree Insert accepts (fails today: known finding F21, completeness only); (h) C04.prefix: in a prefix fetch Seek(prefix) precedes every use of the iterator position in that iteration; (i) C04.writelog: the key/value pairs reported for a verified proof are appended only by addLeafToWriteLog, which is called only inside the hashing recursion, and VerifyProofToWriteLog returns that log.",
 		"NOT decided: completeness of proof builders (that every node on the path is included), collision resistance, behaviour of remote-backed trees under arbitrary response sequences, correctness of node hashing itself (C02).")
 	verifierCore(c, "C04.verify")
+	c04IterErr(c)
 	ix := c.P.BuildIndex()
 
 	const rs = "storage/mkvs.(*cache).remoteSync"
